@@ -6,6 +6,7 @@ import XModel.ManagerC13
 import XModel.ManagerFn
 import XModel.ManagerC01b
 import XModel.ManagerFnHist
+import XModel.ManagerKnob
 /-!
 # C01 — expression-defined locations always equal their definition on current data
 
@@ -145,6 +146,41 @@ theorem C01_histories_function_tasks_unsettled (sched : Sched) (cs : List Call) 
 theorem C01_function_histories_decided (sched : Sched) (cs : List Call) (s : MState) (hi : MInv s) (hc : ConsistentF s)
     (h : goodRunFB sched s cs = true) : ConsistentF (applyAll sched s cs) :=
   C01F_decided sched cs s hi hc h
+
+/-- **what a linear-knob task prescribes**: one run of `t_i += w_i * (value(src) - prev); prev := value(src)` on integer
+    values: each target moves by `w_i * (x - p0)`, `prev` becomes `x`, nothing else changes (no overflow side condition:
+    Python's ints are unbounded and the model's guard only concerns NaN operands) -/
+theorem C01_knob_one_run (s : MState) (t : MTask) (src : Path) (ws : List Int) (tars : List Path) (x p0 : Int)
+    (as : List Int) (hk : t.kind = .knob src ws tars) (hwf : KnobWF src ws tars) (hf : s.faultIn = none)
+    (hsrc : get s.store src = .ok (.int x)) (hprev : lookPrev s.prev t.id = .int p0)
+    (htars : HoldInts s.store tars as) :
+    ∃ s', runTask s t = (s', none) ∧
+      HoldInts s'.store tars (List.zipWith (fun a w => a + w * (x - p0)) as ws) ∧
+      lookPrev s'.prev t.id = .int x ∧
+      (∀ q, canonPath q → (∀ a ∈ tars, Incomparable a q) → get s'.store q = get s.store q) ∧
+      s'.idx = s.idx ∧ s'.defs = s.defs := by
+  obtain ⟨s', h1, h2, h3, _, h5, h6, h7, _⟩ := runTask_knob s t src ws tars x p0 as hk hwf hf hsrc hprev htars
+  exact ⟨s', h1, h2, h3, h5, h6, h7⟩
+
+/-- **through the manager, any number of knob tasks, any schedule**: in a knob scene (the tasks an assignment to `p`
+    triggers are well-formed knobs, pairwise apart, each in its invariant `target_i = b_i + w_i * prev`), after ANY
+    sequence of integer assignments to `p` ending in `v`, every knob whose source is `p` has each target equal to
+    `b_i + w_i * v` with the SAME bases as at registration — the targets hold what the task prescribes -/
+theorem C01_knob_targets_follow {sched : Sched} {p : Path} {l : List MTask} {B : Path → List Int} {s : MState}
+    (h : KnobScene sched p l B s) (vs : List Int) (v : Int) :
+    KnobScene sched p l B (knobAssignAll sched s p (vs ++ [v])) ∧
+      get (knobAssignAll sched s p (vs ++ [v])).store p = .ok (.int v) ∧
+      (∀ t ∈ l, ∀ src ws tars, t.kind = .knob src ws tars → src = p →
+        KnobAt t (B t.id) v (knobAssignAll sched s p (vs ++ [v]))) :=
+  assignAll_knobs h vs v
+
+/-- registration puts a knob in its invariant with bases `a_i - w_i * x0` -/
+theorem C01_knob_register (s : MState) (t : MTask) (src : Path) (ws : List Int) (tars : List Path) (x0 : Int)
+    (as : List Int) (hk : t.kind = .knob src ws tars) (hlen : ws.length = tars.length) (hfz : s.frozen = false)
+    (hsrc : get s.store src = .ok (.int x0)) (htars : HoldInts s.store tars as) :
+    (register s t).2 = none ∧ KnobAt t (knobBases as ws x0) x0 (register s t).1 := by
+  obtain ⟨h1, _, _, _, h5⟩ := register_knob s t src ws tars x0 as hk hlen hfz hsrc htars
+  exact ⟨h1, h5⟩
 
 /-! ### non-vacuity: a concrete history inside the theorem (a chain of two definitions, an update of a
     source, a maintenance call, a definition overwritten by a value) -/
